@@ -4,7 +4,7 @@
 ID=$1; SRC=$2; WT=/tmp/cf-$ID-$$; TT=/tmp/cf-tt-$ID-$$
 set -u
 git -C /repo worktree add -f --detach $WT HEAD >/dev/null 2>&1 || { echo "worktree failed"; exit 2; }
-mkdir -p $TT
+mkdir -p $TT /tmp/agent-$ID
 cd $WT
 res="ID=$ID"
 if git apply --check $SRC/patch.diff 2>/dev/null; then res="$res patch_applies=yes"; else res="$res patch_applies=NO"; fi
@@ -18,10 +18,15 @@ git apply $SRC/patch.diff
 cmake --build _build -j8 >/dev/null 2>&1 || res="$res mut_build=FAIL"
 cc -O1 -g $DEMOFLAGS -o $TT/demo_mut 2>>$TT/cc.log
 (cd $TT && TEST_TMPDIR=$TT timeout 600 ./demo_mut >$TT/demo_mut.out 2>&1); res="$res demo_on_changed_rc=$?"
-TEST_TMPDIR=$TT ctest --test-dir _build -j8 --timeout 900 >$TT/ctest.out 2>&1
+TEST_TMPDIR=$TT ctest --test-dir _build -j4 --timeout 900 >$TT/ctest.out 2>&1
+if ! grep -q "100% tests passed" $TT/ctest.out; then
+  # the machine is shared with other builds: give failed tests one quiet re-run before believing them
+  res="$res first_ctest=\"$(grep 'tests passed' $TT/ctest.out | head -1) $(grep -A3 'The following tests FAILED' $TT/ctest.out | tail -3 | tr '\n' ' ')\""
+  TEST_TMPDIR=$TT ctest --test-dir _build -j1 --rerun-failed --timeout 900 >$TT/ctest.out 2>&1
+fi
 res="$res ctest=\"$(grep 'tests passed' $TT/ctest.out | head -1)\""
 echo "$res"
 echo "--- demo on changed (tail):"; tail -4 $TT/demo_mut.out
 cd /
 git -C /repo worktree remove --force $WT
-rm -rf $TT
+rm -rf $TT /tmp/agent-$ID
